@@ -402,4 +402,45 @@ example :
     (resolveBefore h2 2).toOption = some (some { balance := 19, rest := 0 }, [(1, 1), (0, 2)]) := by
   decide
 
+/-- A committer that folds rewards into a RUNNING copy of the fee recipient and refreshes that copy
+    from the `info` a touching transaction leaves behind — `dead` stands for the info a
+    self-destructed account still carries — instead of from what the commit makes of it (`none`
+    for a deleted account).  The shape of seeded change C07e. -/
+def applyEffectRunning (dead : Acct) (a : Option Acct) : Effect → Option Acct
+  | .unchanged => a
+  | .reward amt => some (applyReward amt a)
+  | .snapshot none => some dead
+  | .snapshot (some s) => some s
+
+/-- **running_copy_violates.** After the fee recipient is deleted, in-order execution credits the
+    next fee to an ABSENT account (a fresh one is materialised); the running-copy committer credits
+    it to the dead contract: nonce, code and the burned balance survive. -/
+theorem running_copy_violates :
+    let dead : Acct := { balance := 77, rest := 1 }
+    inOrder (some dead) [.snapshot none, .reward 5] = some { balance := 5, rest := 0 } ∧
+    [Effect.snapshot none, .reward 5].foldl (applyEffectRunning dead) (some dead) =
+      some { balance := 82, rest := 1 } := by
+  decide
+
+/-- The two committers agree on every history in which the fee recipient is never deleted. -/
+theorem running_copy_agrees_without_deletion (dead : Acct) (effs : List Effect) (a : Option Acct)
+    (h : ∀ e ∈ effs, e ≠ .snapshot none) :
+    effs.foldl (applyEffectRunning dead) a = effs.foldl applyEffect a := by
+  induction effs generalizing a with
+  | nil => rfl
+  | cons e rest ih =>
+    have he : e ≠ .snapshot none := h e (by simp)
+    have hrest : ∀ e' ∈ rest, e' ≠ .snapshot none := fun e' he' => h e' (by simp [he'])
+    simp only [List.foldl_cons]
+    have : applyEffectRunning dead a e = applyEffect a e := by
+      cases e with
+      | unchanged => rfl
+      | reward amt => rfl
+      | snapshot s =>
+        cases s with
+        | none => exact absurd rfl he
+        | some v => rfl
+    rw [this]
+    exact ih _ hrest
+
 end Grevm.History
